@@ -446,6 +446,17 @@ def rf16f(run):
         fills = [x for x in F.walk(b2) if x['k'] == 'CallExpr' and x.get('callee') in ('memset', 'memmove', 'memcpy')]
         deferred = [x for x in F.walk(b2) if x['k'] == 'BinaryOperator' and x['op'] == '=' and F.src(F.strip(x['c'][0])).endswith('->load_addr')
                     and F.src(F.strip(x['c'][1])) == 'addr']
+        # an lref cell is written when its function is prepared for execution (gen_setup_lrefs / generate_icode), which does not
+        # happen again when the module is loaded a second time and the function already has code: the placement pass must leave it
+        if 'MIR_lref_data_item' in t1:
+            writes = fills + [x for x in F.walk(b2) if x['k'] == 'BinaryOperator' and x['op'] == '=' and F.strip(x['c'][0])['k'] == 'UnaryOperator'
+                              and F.strip(x['c'][0])['op'] == '*']
+            run.ob(rule, ('lref-kept', i), not writes, {'kind': t1[:60], 'writes into the cell': [F.src(w)[:50] for w in writes]})
+            if writes:
+                run.violation(rule, f, 'lref cell overwritten at load', 'the placement branch for lref items executes `%s`: the cell holds the label '
+                              'address / difference set when the function was prepared; after a second MIR_load_module of the module nothing '
+                              'sets it again for a function that already has machine code, so every label reference reads 0'
+                              % F.src(writes[0])[:60], line=writes[0]['l'])
         okinit = bool(fills) or bool(deferred)
         run.ob(rule, ('initialised', i), okinit, {'kind': t1[:60], 'filled by': [F.src(x)[:50] for x in fills],
                                                  'deferred via load_addr': bool(deferred)})
@@ -1171,4 +1182,34 @@ def rf79(run):
                           'is the last item of the section: an exported data item followed by anonymous items is %s' %
                           (what, b, lv, 'not registered at all (the last item has no name and no export flag)' if what in ('export test', 'name', 'definition')
                            else 'published at the address of its last continuation item'), line=call['l'])
+    return n
+
+
+# ---------------------------------------------------------------------------------------------
+# RF102: no register is handed out before its name has been checked against the declared names
+# ---------------------------------------------------------------------------------------------
+
+def rf102(run):
+    rule = 'RF102'
+    run.rule(rule, 'create_func_reg: the look-up of the new name in the table of declared names (HTAB_FIND on name2rdn_tab, raising '
+                   'MIR_repeated_decl_error) dominates every return of the function, including the early return that hands out the '
+                   'existing register of another global tied to the same hard register')
+    tu = run.tu('mir')
+    f = tu.func('create_func_reg')
+    run.functions_analysed.add(('mir', f.name))
+    cfg = f.cfg
+    idom = cfg.dominators()
+    finds = [x for x in f.walk() if x['k'] == 'CallExpr' and (x.get('callee') or '').startswith('HTAB_') and 'name2rdn_tab' in F.src(x) and 'HTAB_FIND' in F.src(x)]
+    if not finds:
+        raise F.AnalysisBroken('create_func_reg: look-up in name2rdn_tab not found')
+    fb = cfg.block_of(finds[0])
+    n = 0
+    for bid, ret in rf_flow.return_blocks(f).items():
+        n += 1
+        ok = bid == fb or cfg.dominates(fb, bid, idom)
+        run.ob(rule, (ret['l'],), ok, {'return at line': ret['l'], 'name checked before': ok})
+        if not ok:
+            run.violation(rule, f, 'register returned before the name check', 'create_func_reg returns at line %d on a path that has not looked the '
+                          'name up in name2rdn_tab: `global T:x:hr` with x already declared (argument, local or another global) is accepted and '
+                          'bound to another register instead of raising MIR_repeated_decl_error' % ret['l'], line=ret['l'])
     return n
